@@ -36,6 +36,8 @@ type Job struct {
 	decisions           int64
 	steps               int64
 	inflight            int
+	solverT             time.Duration
+	solverQ             int
 	done                bool
 	started             time.Time
 	wall                time.Duration
@@ -346,6 +348,8 @@ func (e *Explorer) runPath(m *Machine, q queued) {
 		e.push(queued{job: job, item: it})
 	}
 	fn := e.prog.lookupFunc(job.Harness)
+	solverT0 := m.solver.Time
+	solverQ0 := m.solver.NQueries
 	outcome := "returned"
 	msg := ""
 	func() {
@@ -421,6 +425,8 @@ func (e *Explorer) runPath(m *Machine, q queued) {
 
 	job.mu.Lock()
 	job.paths[outcome]++
+	job.solverT += m.solver.Time - solverT0
+	job.solverQ += m.solver.NQueries - solverQ0
 	job.decisions += int64(nd)
 	job.steps += steps
 	if unk {
@@ -498,5 +504,5 @@ func (j *Job) summary() string {
 	for _, k := range keys {
 		parts = append(parts, fmt.Sprintf("%s=%d", k, j.paths[k]))
 	}
-	return fmt.Sprintf("%-40s %s viol=%d %.1fs", j.Name, strings.Join(parts, " "), len(j.violations), j.wall.Seconds())
+	return fmt.Sprintf("%-40s %s viol=%d solver=%.1fs/%dq cpu-wall=%.1fs", j.Name, strings.Join(parts, " "), len(j.violations), j.solverT.Seconds(), j.solverQ, j.wall.Seconds())
 }
